@@ -520,6 +520,21 @@ func (s *sim) collect() {
 	sort.SliceStable(dirty, func(i, j int) bool { return dirty[i].id < dirty[j].id })
 	for _, p := range dirty {
 		p.flush()
+		p.mu.Lock()
+		need, d := p.needUnstall, p.slow
+		p.needUnstall = false
+		p.mu.Unlock()
+		if need {
+			p := p
+			s.after(d, "slow-link-accepts-next "+p.name, func() {
+				p.mu.Lock()
+				again := p.slow > 0 || p.stalled
+				p.mu.Unlock()
+				if again {
+					p.setStalled(false)
+				}
+			})
+		}
 	}
 	// stream operations (close/reset by the SUT)
 	sort.SliceStable(sops, func(i, j int) bool {
